@@ -128,6 +128,8 @@ func handle(p []string) (res string) {
 		return opPump(p[1:])
 	case "wfault":
 		return opWFault(p[1:])
+	case "rfaultw":
+		return opRFaultE(p[1:], errInjectedEOF)
 	case "rfault":
 		return opRFault(p[1:])
 	case "rdops":
@@ -144,9 +146,21 @@ func handle(p []string) (res string) {
 
 var caseID int
 
+// a generator that runs away (an enumeration that was meant to be sampled) must fail loudly instead of filling the disk
+const maxCases = 120000000
+const maxGenBytes = 24 << 30
+
+var genBytes int64
+
 func emit(format string, a ...interface{}) {
 	caseID++
-	fmt.Fprintf(out, "%d ", caseID)
-	fmt.Fprintf(out, format, a...)
+	n1, _ := fmt.Fprintf(out, "%d ", caseID)
+	n2, _ := fmt.Fprintf(out, format, a...)
 	out.WriteByte('\n')
+	genBytes += int64(n1 + n2 + 1)
+	if caseID > maxCases || genBytes > maxGenBytes {
+		out.Flush()
+		fmt.Fprintf(os.Stderr, "generator runaway: %d cases, %d bytes\n", caseID, genBytes)
+		os.Exit(3)
+	}
 }
